@@ -36,10 +36,10 @@ CLAIMS = {
 E2_NOTE = ("trusted: stateright 0.31 BFS; the harness's clock_gettime interposition (self-tested each run); the reference tracker; exact haversine; "
            "depth-bounded (no fixpoint); oracles are evaluated on every generated state inside next_state (stateright itself skips the deepest level)")
 for _pid, _ref, _txt in [
-  ("C12", "3 C12", "all histories up to depth 3 (quick) / 4 (thorough) over a 34-letter frame alphabet (2-3 addresses x payload classes, DF18 with foreign PI, eight non-ES formats): key set, Added, message counts, non-ES no-ops, record isolation checked on every reachable state"),
-  ("C13", "3 C13", "all histories up to depth 4-6 (8 on a single-aircraft sub-alphabet) of even/odd reports from a flight, range-boundary, jump-boundary (polar NL=1), garbage and second-aircraft letters, several receivers/ranges: published position, clearing, distance"),
+  ("C12", "3 C12", "all histories up to depth 4 (quick) / 5 (thorough) over a 37-letter frame alphabet (2-3 addresses x payload classes, DF18 with foreign PI, eight non-ES formats): key set, Added, message counts, non-ES no-ops, record isolation checked on every reachable state"),
+  ("C13", "3 C13", "all histories up to depth 4-6 (7 quick / 9 thorough on a single-aircraft sub-alphabet) of even/odd reports from a flight, range-boundary, jump-boundary (polar NL=1), garbage and second-aircraft letters, several receivers/ranges: published position, clearing, distance"),
   ("C14", "3 C14", "same state spaces plus identification/velocity letters: latest-wins attributes, details/all_position/Display views, distance-iff-position, track = superseded publications in order"),
-  ("C15", "3 C15", "all interleavings up to depth 5 (quick) / 7 (thorough) of frames, waits {1 ns, 0.4T, 0.6T, T-1ns, T} and prune(T), T in {0, 1, 10}: exact expiry set, untouched survivors, fresh record on re-appearance"),
+  ("C15", "3 C15", "all interleavings up to depth 6 (quick) / 9 (thorough) of frames (identification, velocity, positions, unhandled types, DF18, non-ES), waits {1 ns, 0.4T, 0.6T, T-1ns, T} and prune(T), T in {0, 1, 10}: exact expiry set, untouched survivors, fresh record on re-appearance"),
 ]:
     CLAIMS[_pid] = dict(cat="model_checking", engine="E2-tracker",
         tech="explicit-state model checking (stateright BFS) of the real Airplanes::action/prune, one event per transition under a virtual clock, against a reference tracker; every transition executes the implementation",
